@@ -22,10 +22,18 @@ class HelpResolver(DefaultResolver):
     def resolve(
         self, args, application
     ):  # type: (RawArgs, Application) -> ResolvedCommand
-        if args.tokens and args.tokens[0] == self._help_command_name:
-            del args.tokens[0]
+        tokens = args.tokens
+        removed = bool(tokens) and tokens[0] == self._help_command_name
 
-        return super(HelpResolver, self).resolve(args, application)
+        if removed:
+            del tokens[0]
+
+        try:
+            return super(HelpResolver, self).resolve(args, application)
+        finally:
+            # The raw arguments belong to the caller
+            if removed:
+                tokens.insert(0, self._help_command_name)
 
     def create_resolved_command(
         self, result
